@@ -52,7 +52,7 @@ def gen_limits(rng, kind):
 
 def gen_system(rng, *, max_nodes=24, p_table=0.25, p_mux=0.3, n_sources=None, polarity=True,
                p_rt=0.0, p_limits=0.0, p_group=0.0, p_rail=0.0, phases=0.0, p_neg_args=0.15,
-               heavy=False, p_neg_src_rs=0.0):
+               heavy=False, p_neg_src_rs=0.0, p_detour=0.25):
     """Returns a description dict.  `heavy` sizes series resistances / loads towards overload."""
     ns = n_sources if n_sources is not None else rng.choice([1, 1, 1, 2, 2, 3])
     n_total = rng.randint(ns + 1, max(ns + 1, int(rng.choice([4, 8, 12, max_nodes]))))
@@ -227,7 +227,29 @@ def gen_system(rng, *, max_nodes=24, p_table=0.25, p_mux=0.3, n_sources=None, po
     desc = {"name": "sys", "comps": comps, "phases": {}}
     if rng.random() < phases:
         add_phases(rng, desc)
+    if rng.random() < p_detour:
+        add_detour(rng, desc)
     return desc
+
+
+def add_detour(rng, desc):
+    """choose a leaf to be added late (after a first solve with a decoy in another place); see sysdesc.build"""
+    comps = desc["comps"]
+    used = set()
+    for c in comps:
+        for p in c["parents"]:
+            used.add(p)
+    rails = {c.get("rail"): c["name"] for c in comps if c.get("rail")}
+    used |= {rails[u] for u in list(used) if u in rails}
+    leaves = [c for c in comps if c["kind"] != "source" and c["name"] not in used and c.get("rail", "") not in used]
+    hosts = [c["name"] for c in comps if c["kind"] not in ("pload", "iload", "rload")]
+    if not leaves or not hosts:
+        return
+    x = rng.choice(leaves)
+    hosts = [h for h in hosts if h != x["name"]]
+    if not hosts:
+        return
+    desc.setdefault("_build", {})["detour"] = {"x": x["name"], "decoy_parent": rng.choice(hosts)}
 
 
 def add_phases(rng, desc, unknown=0.1):
@@ -243,10 +265,13 @@ def add_phases(rng, desc, unknown=0.1):
         if k in ("pload", "iload", "rload"):
             sub = [p for p in names if rng.random() < 0.6]
             base = {"pload": ("pwr", 1e-3, 1.0), "iload": ("ii", 1e-4, 0.3), "rload": ("rs", 10, 1e5)}[k]
-            c["pconf"] = {p: sd(rng, base[1], base[2]) for p in sub}
+            c["pconf"] = {p: (0.0 if (k != "rload" and rng.random() < 0.15) else sd(rng, base[1], base[2])) for p in sub}
         else:
             sub = [p for p in names if rng.random() < 0.65]
             if rng.random() < unknown:
                 sub.append("nosuch")
+            if rng.random() < 0.08:
+                sub = ["nosuch"]              # names only phases outside the system's set: inactive in every phase
             c["pconf"] = sub
+    desc.setdefault("_build", {})["phase_order"] = rng.choice(["normal", "normal", "comp_first", "redefine"])
     return desc
